@@ -312,6 +312,44 @@ def generate(root, repo, log):
             if arg.startswith("kind"):   # the definition's parameter
                 continue
             set_kinds.append(arg.replace("LuaTokenKind::", ""))
+    # ---- guard shapes: every `leave_level` is dominated by a *successful* `enter_level` -----------------
+    def norm(t):
+        return re.sub(r"\s+", " ", t).strip()
+    shapes = []   # (file:name, ok)
+    for key in keys:
+        f, n = key
+        body = fns[key]
+        if "enter_level" not in body and "leave_level" not in body and n not in ("enter_level", "leave_level"):
+            continue
+        nb = norm(body)
+        if n == "enter_level" and f == "parser/lua_parser.rs":
+            ok = nb == "{ if self.syntax_level >= Self::MAX_SYNTAX_LEVELS { return false; } self.syntax_level += 1; true }"
+        elif n == "leave_level" and f == "parser/lua_parser.rs":
+            ok = nb == "{ self.syntax_level = self.syntax_level.saturating_sub(1); }"
+        elif n == "enter_level" and f == "parser/lua_doc_parser.rs":
+            ok = nb == "{ self.lua_parser.enter_level() }"
+        elif n == "leave_level" and f == "parser/lua_doc_parser.rs":
+            ok = nb == "{ self.lua_parser.leave_level() }"
+        elif n == "enter_level":
+            # free helper: Ok(()) exactly when the method returned true
+            ok = nb.startswith("{ if p.enter_level() { return Ok(()); }") and nb.count("Ok(") == 1 and "leave_level" not in nb \
+                and re.search(r"Err\([^;]*\) }$", nb) is not None
+        else:
+            # user of the guard: `enter_level(p)?;` is the first statement, exactly one enter and one leave,
+            # and nothing between them can leave the function (`?`, `return`, `break` out of a labelled block)
+            m1 = re.match(r"^\{ enter_level\(p\)\?; (.*)$", nb)
+            ok = False
+            if m1 and nb.count("enter_level(") == 1 and nb.count("leave_level(") == 1:
+                rest = m1.group(1)
+                k = rest.find("p.leave_level();")
+                if k >= 0:
+                    between = rest[:k]
+                    ok = "?" not in between and not re.search(r"\b(return|break|continue)\b", between)
+        shapes.append((f"{f}:{n}", ok))
+    guarded_names = set(f"{keys[g][0]}:{keys[g][1]}" for g in guarded)
+    shaped_users = set(nm for nm, _ in shapes if not nm.endswith(":enter_level") and not nm.endswith(":leave_level"))
+    if guarded_names != shaped_users:
+        shapes.append(("guarded functions == functions using enter_level/leave_level", False))
     lines = ["/-! GENERATED by checklib/gen/tree_callgraph.py from crates/emmylua_parser/src — do not edit. -/",
              "namespace Gen.TreeCallGraph", "",
              "/-- extracted functions, `file:name` -/",
@@ -324,6 +362,10 @@ def generate(root, repo, log):
              "def rank : List Nat := [" + ", ".join(map(str, ranks)) + "]", "",
              f"def rankBound : Nat := {R}", "",
              f"/-- `LuaParser::MAX_SYNTAX_LEVELS` -/\ndef maxLevels : Nat := {max_levels}", "",
+             "/-- every function that touches the level counter, and whether its body has the required shape:",
+             "the counter methods themselves (a failed `enter_level` changes nothing), the `Result` helpers, and the",
+             "guard users (`enter_level(p)?;` first, one `leave_level`, nothing in between can leave the function) -/",
+             "def guardShapes : List (String × Bool) := [" + ", ".join('("%s", %s)' % (nm, "true" if ok else "false") for nm, ok in shapes) + "]", "",
              "/-- arguments of every `set_current_token_kind(…)` call of the Lua grammar -/",
              "def setKindArgs : List String := [" + ", ".join('"%s"' % k for k in set_kinds) + "]", "",
              "end Gen.TreeCallGraph", ""]
@@ -334,7 +376,8 @@ def generate(root, repo, log):
         open(out, "w").write(text)
     return {"file": os.path.relpath(out, root), "functions": len(keys), "edges": len(edges),
             "guarded": [f"{keys[g][0]}:{keys[g][1]}" for g in guarded], "rank_bound": R, "max_levels": max_levels,
-            "external_method_names": len(external_methods), "set_kind_args": sorted(set(set_kinds))}
+            "external_method_names": len(external_methods), "set_kind_args": sorted(set(set_kinds)),
+            "guard_shapes": {nm: ok for nm, ok in shapes}}
 
 
 if __name__ == "__main__":
